@@ -67,16 +67,17 @@ def resolve_anchor(repo, rel, what):
     parts = what.split(".")
     nodes = tree.body
     found = None
-    for part in parts:
-        found = None
-        for n in nodes:
-            if isinstance(n, (ast.FunctionDef, ast.ClassDef, ast.AsyncFunctionDef)) and n.name == part:
-                found = n
-                break
-        if found is None:
+    lo = hi = None
+    for pi, part in enumerate(parts):
+        cands = [n for n in nodes if isinstance(n, (ast.FunctionDef, ast.ClassDef, ast.AsyncFunctionDef)) and n.name == part]
+        if not cands:
             return None
+        found = cands[0]
         nodes = found.body
-    return found.lineno, found.end_lineno
+        if pi == len(parts) - 1:
+            # a property has a getter and a setter of the same name: cover both
+            lo, hi = min(c.lineno for c in cands), max(c.end_lineno for c in cands)
+    return lo, hi
 
 
 def run(prop, tier, seed):
@@ -195,6 +196,13 @@ def finish(mod, fold, repo, t0):
     if fold["cases"] and fold["watchdog_hits"] > max(2, 0.01 * fold["cases"]):
         inconclusive.append(f"watchdog fired on {fold['watchdog_hits']} of {fold['cases']} cases")
     floors = dict(getattr(mod, "FLOORS", {}))
+    ffn = os.path.join(VERIF, "floors.json")
+    if os.path.exists(ffn):
+        with open(ffn) as f:
+            cal = json.load(f).get(prop, {})
+        floors.update({k: v for k, v in cal.items() if k in floors})
+    if os.environ.get("LMM_IGNORE_FLOORS"):
+        floors = {}
     scale = 1.0
     if tier == "thorough" and not os.environ.get("LMM_CASES"):
         scale = max(1.0, 0.5 * mod.CASES["thorough"] / mod.CASES["quick"])
